@@ -11,7 +11,7 @@
 //   NODE <idx> MAX|MIN|LT|OBJ <name>
 //   NODE <idx> SCALE <name> <factor>
 //   EDGE <parent idx> <child idx>
-//   RUN <root idx> <now> <discretization> <critical_path 0/1> <capacity_purge 0/1>
+//   RUN <root idx> <now> <discretization> <critical_path 0/1> <capacity_purge 0/1> [<dynamic_discretization 0/1> <maxDiscretization>]
 //        -> dumps the compiled model (VAR / CON / OBJ / NODEINFO lines) then "ENDMODEL"
 //   SOL <n> then n lines "<varname> <value>"
 //        -> injects the values, calls the real populateResults() on the root, dumps
@@ -109,16 +109,21 @@ int main() {
         int p, c; in >> p >> c;
         nodes.at(p)->addChild(nodes.at(c));
       } else if (cmd == "RUN") {
-        int r; Time now, disc; int cp, purge;
+        int r; Time now, disc; int cp, purge; int dyn = 0; Time maxDisc = 5;
         in >> r >> now >> disc >> cp >> purge;
+        if (!(in >> dyn)) dyn = 0;
+        if (dyn && !(in >> maxDisc)) maxDisc = 5;
         root = nodes.at(r);
         Partitions avail;
         for (auto& [id, p] : parts) avail.addPartition(p);
         model = std::shared_ptr<SolverModel>(new SolverModel());
         CapacityConstraintMapPtr cc = std::make_shared<CapacityConstraintMap>(disc);
         auto cfg = std::make_shared<OptimizationPassConfig>();
+        cfg->minDiscretization = disc;
+        cfg->maxDiscretization = maxDisc;
         OptimizationPassRunner runner(cfg, false);
         if (cp) runner.addOptimizationPass(OptimizationPassCategory::CRITICAL_PATH_PASS);
+        if (dyn) runner.addOptimizationPass(OptimizationPassCategory::DYNAMIC_DISCRETIZATION_PASS);
         if (purge) runner.addOptimizationPass(OptimizationPassCategory::CAPACITY_CONSTRAINT_PURGE_PASS);
         runner.runPreTranslationPasses(now, root, cc);
         auto pr = root->parse(model, avail, cc, now);
